@@ -239,7 +239,11 @@ fn sweep(cfg: &ShardCfg, out: &mut ShardOut, max_depth: usize, time_share: f64) 
                 }
                 let mut cand = seq.clone();
                 cand.push(op.clone());
-                let r = run_case(prop, &case, Some(&cand), &mut scratch, &cfg.work, None);
+                let mut stray = crate::json::Counters::default();
+                let Some(r) = crate::shard::case_guard(&mut stray, || run_case(prop, &case, Some(&cand), &mut scratch, &cfg.work, None)) else {
+                    out.counters.inc("case.abandoned-by-stray-panic-from-code-under-test");
+                    continue;
+                };
                 sequences += 1;
                 out.calls += r.stats.calls;
                 if let Some((msg, _)) = &r.violation {
@@ -309,7 +313,11 @@ pub fn run_shard(cfg: &ShardCfg, out: &mut ShardOut) {
         } else {
             None
         };
-        let r = run_case(prop, &case, None, out, &cfg.work, sink);
+        let mut stray = crate::json::Counters::default();
+        let Some(r) = crate::shard::case_guard(&mut stray, || run_case(prop, &case, None, out, &cfg.work, sink)) else {
+            out.counters.inc("case.abandoned-by-stray-panic-from-code-under-test");
+            continue;
+        };
         if cfg.mode == "dump" && r.violation.is_none() {
             dump_history(cfg, out, &case, &r.ops);
         }
